@@ -275,6 +275,7 @@ fn c13(args: &Args) -> i32 {
         stub: vec!["parking_lot blocking paths and OS threads in the thread-scheduled runs"],
         assumptions: vec!["SPARQL result cells are compared by lexical form (the engine returns lexical forms)".into()],
         unchecked: vec![
+            "SPARQL DELETE {..} INSERT {..} WHERE {..} (modify) and DELETE WHERE: the update templates are INSERT DATA / DELETE DATA only (seeded change C13f is not caught)".into(),
             "'all queries from the SPARQL core grammar': a pure function of (triple set, query text) - decided here only for the fixed template family (single pattern in each shape, join on a shared variable, FILTER =, OPTIONAL, UNION, DISTINCT, COUNT, INSERT DATA/DELETE DATA)".into(),
             "ring index (cargo feature off)".into(),
             "blank nodes in SPARQL updates (fresh labels per request)".into(),
